@@ -372,7 +372,8 @@ def cd_setup(ctx):
     ctx.ghost["cwd"] = cwd0
     bag = CharBag(ctx, "path.mode", ALPHA)
     absolute = z3.String("path.absolute")
-    path = Rec("Path", attrs={"_url_data": None, "is_url": False, "is_fsspec": False, "absolute": absolute, "mode": bag}) if scenario & 1 else None
+    path = Rec("Path", attrs={"_url_data": None, "is_url": False, "is_fsspec": False, "absolute": absolute, "mode": bag,
+                             "cwd": z3.String("path.cwd(the working directory when the Path object was created: any, the process may have moved since)")}) if scenario & 1 else None
     # precondition: path.absolute is an absolute local path, so it and its dirname are non-empty
     ctx.assume(z3.Length(absolute) > 0)
     ctx.assume(z3.Length(dirname(absolute)) > 0)
